@@ -10,6 +10,45 @@ UNIT = 0.25  # one grid unit of the metric / threshold (exact in the CSV's 5 sig
 FACTOR = 0.5
 
 
+# the optimizer's parameter groups (TrainCtl.tla: NG = 2 groups, set-up fields LG / OG / SD of the parameter record).
+# Rates an optimizer OBJECT is constructed with: when the initial rate is configured (LG = 1) deliberately wrong ones,
+# which the initial load must overwrite; otherwise the default 1 = lr0 (the history records it) and, for a group
+# with a rate of its own (OG = 1), 3.  None of the own rates, halved any number of times, is a recorded rate 2^-k.
+CTOR_LG = (123.0, 77.0)
+CTOR_DEFAULT = 1.0
+CTOR_OWN2 = 3.0
+OFF_GRID = 99  # abstract value of a rate that is neither a recorded rate nor the group's constructor rate
+
+
+def setup_of(p):
+    """(LG, OG, SD) of a TrainCtl parameter record (records of older specifications: the standard set-up)"""
+    return p.get("LG", 1), p.get("OG", 0), p.get("SD", 1)
+
+
+def ctor_rates(p, groups):
+    lg, og, _ = setup_of(p)
+    if lg:
+        return list(CTOR_LG[:groups])
+    return [CTOR_DEFAULT] + [CTOR_OWN2 if og else CTOR_DEFAULT] * (groups - 1)
+
+
+def abstract_rates(lrs, p):
+    """project the optimizer's group rates onto TrainCtl!optlr: k for the recorded rate 2^-k, -g for "the rate group g
+    was constructed with (no recorded rate)", OFF_GRID otherwise"""
+    out = []
+    ctor = ctor_rates(p, len(lrs))
+    for g, lr in enumerate(lrs, 1):
+        k = None
+        if lr > 0:
+            x = math.log(lr) / math.log(FACTOR)
+            if abs(x - round(x)) < 1e-9 and 0 <= round(x) < OFF_GRID:
+                k = int(round(x))
+        if k is None:
+            k = -g if abs(lr - ctor[g - 1]) <= 1e-12 * abs(ctor[g - 1]) else OFF_GRID
+        out.append(k)
+    return out
+
+
 def make_params(p, keep_last_and_best=True, model_fmt="model_{epoch:03d}.pt", optim_fmt="optim_{epoch:03d}.pt"):
     from pydrobert.torch.training import TrainingStateParams
 
@@ -18,7 +57,7 @@ def make_params(p, keep_last_and_best=True, model_fmt="model_{epoch:03d}.pt", op
     log10_eps = -8.0 if ek >= 9 else math.log10(1.5 * 2.0 ** -(ek + 1))
     return TrainingStateParams(
         num_epochs=(p["ne"] or None),
-        log10_learning_rate=0.0,
+        log10_learning_rate=(0.0 if setup_of(p)[0] else None),  # LG = 0: the optimizer's default is the initial rate
         early_stopping_threshold=p["TH"] * UNIT,
         early_stopping_patience=p["P"],
         early_stopping_burnin=p["B"],
@@ -34,6 +73,62 @@ def make_params(p, keep_last_and_best=True, model_fmt="model_{epoch:03d}.pt", op
     )
 
 
+# ---- what is handed to the controller as the model (specs/TrainCtlModel.tla)
+MODEL_KINDS = ("plain", "data_parallel", "wrapper")
+
+
+class Scaled(torch.nn.Module):
+    """a user-defined wrapper: the network sits in the attribute `module`, next to a parameter of the wrapper's own"""
+
+    def __init__(self, module):
+        super().__init__()
+        self.module = module
+        self.scale = torch.nn.Parameter(torch.ones(1))
+
+    def forward(self, x):
+        return self.module(x) * self.scale
+
+
+def make_model(kind="plain"):
+    """a 1x1 Linear (every parameter -1), plain or wrapped"""
+    if kind not in MODEL_KINDS:
+        raise ValueError(kind)
+    net = torch.nn.Linear(1, 1)
+    model = net if kind == "plain" else torch.nn.DataParallel(net) if kind == "data_parallel" else Scaled(net)
+    with torch.no_grad():
+        for prm in model.parameters():
+            prm.fill_(-1.0)
+    return model
+
+
+def network_of(model):
+    return model if isinstance(model, torch.nn.Linear) else model.module
+
+
+def set_epoch(model, epoch):
+    """make the parameters identify the epoch: weight = epoch, bias = epoch + 1/2, a wrapper's own scale = epoch + 1/4"""
+    with torch.no_grad():
+        net = network_of(model)
+        net.weight.fill_(float(epoch))
+        net.bias.fill_(float(epoch) + 0.5)
+        if isinstance(model, Scaled):
+            model.scale.fill_(float(epoch) + 0.25)
+
+
+def epoch_of(model):
+    """the epoch whose parameters the model holds; None if its parameters are not those set_epoch gave one epoch"""
+    net = network_of(model)
+    w = float(net.weight.detach().flatten()[0])
+    ok = float(net.bias.detach().flatten()[0]) == w + 0.5 and w == round(w)
+    if isinstance(model, Scaled):
+        ok = ok and float(model.scale.detach().flatten()[0]) == w + 0.25
+    return int(w) if ok else None
+
+
+def live_keys(model):
+    return sorted(model.state_dict().keys())
+
+
 class Sim:
     """One training run on real files.  The model is a 1x1 Linear whose weight is set to the epoch
     number before each update, so a checkpoint's content identifies the epoch it was saved for."""
@@ -44,10 +139,15 @@ class Sim:
     ENTRIES_NOTE = (("note", str, "{}"),) + ENTRIES
 
     def __init__(self, workdir, p, keep_lb=True, model_fmt="model_{epoch:03d}.pt", optim_fmt="optim_{epoch:03d}.pt",
-                 entries=True):
+                 entries=True, groups=1, model_kind="plain"):
+        """groups: parameter groups of the optimizer (2: weight and bias apart).  The set-up fields of p (setup_of)
+        choose the configured / default initial rate, group 2's own rate and whether there is a state directory."""
         self.dir = workdir
+        self.p = p
+        self.groups = groups
+        self.model_kind = model_kind
         self.csv = os.path.join(workdir, "hist.csv")
-        self.state_dir = os.path.join(workdir, "states")
+        self.state_dir = os.path.join(workdir, "states") if setup_of(p)[2] else None
         self.params = make_params(p, keep_lb, model_fmt, optim_fmt)
         self.entries = entries
         self.entry_list = self.ENTRIES_NOTE if entries == "note" else (self.ENTRIES if entries else ())
@@ -57,12 +157,18 @@ class Sim:
         """(re)construct every Python object from the files, as a new process would"""
         from pydrobert.torch.training import TrainingStateController
 
-        self.model = torch.nn.Linear(1, 1)
-        with torch.no_grad():
-            self.model.weight.fill_(-1.0)
-            self.model.bias.fill_(-1.0)
-        # a deliberately wrong lr: loading the optimizer state must restore the recorded one
-        self.opt = torch.optim.SGD(self.model.parameters(), lr=123.0, momentum=0.5)
+        self.model = make_model(self.model_kind)
+        self.net = network_of(self.model)
+        # (LG = 1) a deliberately wrong lr: loading the optimizer state must restore the recorded one
+        ctor = ctor_rates(self.p, self.groups)
+        if self.groups == 1:
+            self.opt = torch.optim.SGD(self.model.parameters(), lr=ctor[0], momentum=0.5)
+        else:
+            gs = [dict(params=[self.net.weight]), dict(params=[self.net.bias] + [
+                q for n, q in self.model.named_parameters() if not n.endswith(("weight", "bias"))])]
+            if ctor[1] != ctor[0]:
+                gs[1]["lr"] = ctor[1]  # a group constructed with a rate of its own
+            self.opt = torch.optim.SGD(gs, lr=ctor[0], momentum=0.5)
         with warnings.catch_warnings():
             warnings.simplefilter("ignore")
             self.ctl = TrainingStateController(self.params, self.csv, self.state_dir, warn=False)
@@ -88,9 +194,7 @@ class Sim:
 
     def update(self, row, epoch=None, best_is_train=False):
         """epoch=None: the controller infers the epoch; otherwise the documented explicit `epoch` argument"""
-        with torch.no_grad():
-            self.model.weight.fill_(float(row["epoch"]))
-            self.model.bias.fill_(float(row["epoch"]) + 0.5)
+        set_epoch(self.model, row["epoch"])
         self.opt.param_groups[0]["vf_epoch"] = row["epoch"]  # tags the optimizer checkpoint with its epoch
         with warnings.catch_warnings():
             warnings.simplefilter("ignore")
@@ -104,6 +208,10 @@ class Sim:
     def opt_lrs(self):
         return [g["lr"] for g in self.opt.param_groups]
 
+    def opt_abs(self):
+        """the optimizer's groups in the specification's terms (TrainCtl!optlr)"""
+        return abstract_rates(self.opt_lrs(), self.p)
+
     def read_csv(self):
         if not os.path.exists(self.csv):
             return []
@@ -111,7 +219,7 @@ class Sim:
             return list(csv.DictReader(f))
 
     def state_files(self):
-        if not os.path.isdir(self.state_dir):
+        if self.state_dir is None or not os.path.isdir(self.state_dir):
             return []
         return sorted(os.listdir(self.state_dir))
 
